@@ -9,6 +9,88 @@ import (
 
 func init() {
 	env.Register("C12_Bytes", C12_Bytes)
+	env.Register("C12_Mutate", C12_Mutate)
+}
+
+// C12_Mutate: a genuine message of the given kind (PREPREPARE, PREPARE, COMMIT, VIEW_CHANGE with proof,
+// NEW_VIEW with votes and proof: 60..400 bytes) in which one 4-byte-aligned window (symbolic choice of the
+// position) is replaced by 4 arbitrary bytes: this reaches every length prefix, union tag and field of the
+// nested structure. It goes through the main loop (channel model) and the worker's message handler; then
+// a complete honest round is delivered, which must still commit.
+func C12_Mutate() {
+	kind := env.Param("kind")
+	wd := newWorld(1, equalWeights(4))
+	n, net := wd.n, wd.net
+	n.timeout() // view 1: this node is the leader collecting votes, and accepts NEW_VIEWs of later views
+	blk := &stub.Block{H: 1, Tag: 0x21, ProposalOK: true}
+	var msg interfaces.ConsensusMessage
+	switch kind {
+	case 0:
+		msg = net.ppm(1, 1, 1, blk)
+	case 1:
+		msg = net.pm(2, 1, 1, stub.HashOf(blk))
+	case 2:
+		msg = net.cm(2, 1, 1, stub.HashOf(blk))
+	case 3:
+		msg = net.vcm(2, 1, 1, net.prepared(1, 0, blk, []int{2, 3}))
+	case 4:
+		votes := []*interfaces.ViewChangeMessage{net.vcm(0, 1, 2, net.prepared(1, 0, blk, []int{1, 3})), net.vcm(2, 1, 2, nil), net.vcm(3, 1, 2, nil)}
+		msg = net.nvm(2, 1, 2, votes, blk)
+	}
+	raw := msg.ToConsensusRawMessage()
+	content := make([]byte, len(raw.Content))
+	copy(content, raw.Content)
+	nwin := len(content) / 4
+	w := env.Choice("window", nwin)
+	for i := 0; i < 4; i++ {
+		content[4*w+i] = env.NondetU8("w")
+	}
+	mut := &interfaces.ConsensusRawMessage{Content: content, Block: raw.Block}
+
+	ctx := env.CancelWhenIdle()
+	env.ChanOffer(n.m.messagesChannel, mut)
+	p := env.Catch(func() { n.m.run(ctx) })
+	env.Assert("C12.main.no_panic", p == 0)
+	if p != 0 {
+		return
+	}
+	if env.ChanBuffered(n.m.worker.MessagesChannel) == 1 {
+		fw := <-n.m.worker.MessagesChannel
+		p2 := env.Catch(func() { n.m.worker.handleRawMessage(fw) })
+		env.Assert("C12.worker.no_panic", p2 == 0)
+		env.Reach("C12.mutate.forwarded")
+	}
+	// the node is not wedged: an honest round in its current view still commits. (The main loop's exit
+	// shut the contexts down; a running node's main loop does not exit, so use a node state without it:
+	// the commit path needs the term-level context, hence the follow-up runs on a twin that received the
+	// same message through the worker path only.)
+	const tw = 2 // the twin is member 2 (a follower in view 1)
+	twin := newWorld(tw, equalWeights(4))
+	twin.n.timeout()
+	p3 := env.Catch(func() { twin.n.m.worker.handleRawMessage(mut) })
+	env.Assert("C12.worker.no_panic", p3 == 0)
+	tv := twin.n.m.state.View()
+	ldr := int(uint64(tv) % 4)
+	if ldr == tw {
+		return // the twin leads its view: a follow-up round would need its own votes; covered by C09/C11
+	}
+	if _, has := twin.n.st.GetPreprepareMessage(1, tv); has {
+		return // the (unmutated-equivalent) message already was this view's proposal
+	}
+	fb := &stub.Block{H: 1, Tag: 0x25, ProposalOK: true}
+	twin.n.deliver(twin.net.ppm(ldr, 1, tv, fb).ToConsensusRawMessage())
+	for i := 0; i < 4; i++ {
+		if i != tw && i != ldr {
+			twin.n.deliver(twin.net.pm(i, 1, tv, stub.HashOf(fb)).ToConsensusRawMessage())
+		}
+	}
+	for i := 0; i < 4; i++ {
+		if i != tw {
+			twin.n.deliver(twin.net.cm(i, 1, tv, stub.HashOf(fb)).ToConsensusRawMessage())
+		}
+	}
+	env.Assert("C12.followup_commits", len(twin.n.commits) == 1)
+	env.Reach("C12.mutate.followup")
 }
 
 // C12_Bytes: arbitrary content bytes (and a present or absent block) handed to HandleConsensusMessage:
